@@ -387,11 +387,11 @@ PROPS = {
                         "resource use is bounded by the per-case timeout only; allocation is not measured"],
     },
     "C10": {
-        "lean_files": ["AriesVerif/C10/Model.lean", "AriesVerif/C10/Props.lean", "AriesVerif/C10/Drv.lean"],
+        "lean_files": ["AriesVerif/C10/Model.lean", "AriesVerif/C10/Props.lean", "AriesVerif/C10/Rot.lean", "AriesVerif/C10/Drv.lean"],
         "lake_targets": ["AriesVerif"],
         "classify": lambda inp, out: ["cfg:" + inp.split("|")[0]] + ["op:" + o.split(" ")[0] for o in inp.split("|")[1].split(";")] +
                                      ["out:" + o.split(" ")[0][:12] for o in out.split("|")],
-        "nontrivial": lambda inp, out: "completed/completed" in out,
+        "nontrivial": lambda inp, out: "completed/completed" in out or (inp.startswith("rot,") and "ok[" in out),
         "shrink": {"field_sep": "|", "op_sep": ";", "fields": [1]},
         "thorough_seeds": 1,
         "case_timeout": 240,
@@ -400,10 +400,15 @@ PROPS = {
                 "messages over the connections with the (myDID, theirDID) the receiver's handler is given, then third-party "
                 "traffic: a forged didexchange request attaching a document under the peer's DID (own keys, or the peer's keys with "
                 "the service block replaced), an anoncrypt and an authcrypt message whose body names the peer; exchanges while "
-                "one agent's storage writes are slow; resolve(TheirDID) before and after; non-trivial = an exchange completed",
+                "one agent's storage writes are slow; resolve(TheirDID) before and after; non-trivial = an exchange completed. "
+                "DID rotation (`rot,<id style>|...`): the from_prior handling of the DIDComm v2 middleware over a real connection "
+                "recorder, KMS and crypto: rotations signed by the prior DID's key, by the other peer, by third parties, with the "
+                "kid naming the signer's / the prior DID's / the new DID's method (relative and absolute ids), envelope sender "
+                "equal to / different from the new DID, repeated rotations, plain messages; predicted exactly by Conn.Rot.step",
         "trusted_base": ["the bus delivers synchronously (no loss, no reordering beyond what the goroutines of the services do)",
                          "agent start-up, transports, retries and scheduling inside one agent are not modelled (partial)"],
         "assumptions": ["didexchange invitations only (out-of-band, implicit and legacy-connection invitations are not driven)",
+                        "DID rotation is driven at the middleware (HandleInboundMessage), not through packed envelopes between agents",
                         "waiting for a state is polling with a 4 s limit"],
     },
     "C13": {
